@@ -104,6 +104,10 @@ class Rec:
                 return False
         err = np.abs(g - w)
         t = np.broadcast_to(np.asarray(tol, dtype=float), err.shape)
+        # identical non-finite entries (nan/nan, inf/inf of the same sign) count as equal
+        with np.errstate(invalid="ignore"):
+            samenf = (np.isnan(g) & np.isnan(w)) | ((g == w) & ~np.isfinite(g.real if np.iscomplexobj(g) else g))
+        err = np.where(samenf, 0.0, err)
         bad = ~(err <= t)
         with np.errstate(divide="ignore", invalid="ignore"):
             r = np.where(t > 0, err / t, np.where(err == 0, 0.0, np.inf))
